@@ -43,7 +43,8 @@ class C15(Check):
         operand = st.fixed_dictionaries(dict(type=st.sampled_from(OPERANDS), h=f(0.0, 1.0)))
         pert = st.fixed_dictionaries(dict(type=st.sampled_from(VARTYPES), s=sel, axis=st.sampled_from(['x', 'y']),
                                           sampler=st.sampled_from(['range', 'scalar', 'normal', 'uniform', 'nominal', 'fail']),
-                                          mag=f(0.001, 0.05), steps=st.integers(1, 5), seed=st.integers(0, 10 ** 6)))
+                                          mag=f(0.001, 0.05), steps=st.integers(1, 5),
+                                          seed=st.one_of(st.sampled_from([0, 0, 1]), st.integers(0, 10 ** 6))))
         return st.fixed_dictionaries(dict(spec=GL.lens_spec(OPT, min_surfs=2), operands=st.lists(operand, min_size=1, max_size=3),
                                           perts=st.lists(pert, min_size=1, max_size=4),
                                           comp=st.sampled_from(['none', 'none', 'thickness', 'radius', 'asphere']),
